@@ -55,6 +55,24 @@ def run_panic_probe(wfile, repo, stress):
             "witness_file": wfile, "stderr": p.stderr[-1000:]}
 
 
+def run_generic(wfile, repo, prop, variant):
+    """Run the PROGRAM of a catalogued witness under a configuration variant and evaluate the relational oracles of `prop`."""
+    if repo not in _BUILT:
+        _BUILT[repo] = build_replay(repo)
+    ok, err = _BUILT[repo]
+    if not ok:
+        return {"reproduced": False, "error": "replay crate does not build: " + err}
+    try:
+        p = subprocess.run([replay_bin(), "--file", wfile, "--generic", prop, "--variant", variant], capture_output=True, text=True, timeout=40)
+    except subprocess.TimeoutExpired:
+        return {"reproduced": prop == "C13", "output": "the call did not return within 40 s", "witness_file": wfile, "stderr": "", "failed": ["hangs"]}
+    out = p.stdout
+    crashed = p.returncode != 0 and "REPRODUCED" not in out
+    failed = [l.split()[1] for l in out.splitlines() if l.startswith("GENERIC-FAIL")]
+    return {"reproduced": bool(failed) or (crashed and prop == "C13"), "failed": failed or (["process_crash"] if crashed else []),
+            "output": out[-3000:], "witness_file": wfile, "stderr": p.stderr[-800:]}
+
+
 def run_witness(wfile, repo):
     if repo not in _BUILT:
         _BUILT[repo] = build_replay(repo)
